@@ -611,9 +611,12 @@ fn reopen(tmp: &Path, w: &Workload, img: &Image, cont: bool) -> Opened {
         let ho = writer.heads_offset().map(|h| format!("{h:?}")).unwrap_or_else(|e| format!("E{e:?}"));
         let ho: String = ho.chars().filter(|c| c.is_ascii_digit()).collect();
         let fc = writer.fact_cache().map(|f| f.get().to_string()).unwrap_or_else(|e| format!("E{e:?}"));
-        let heads = match writer.heads() {
-            Ok(h) => heads_tag(&h),
-            Err(e) => format!("E{e:?}"),
+        // `buggy`'s `assume` panics under debug assertions (e.g. a head-set offset above i64::MAX
+        // in a crafted root): report that as a value, it is not part of what `open` returned.
+        let heads = match panic::catch_unwind(AssertUnwindSafe(|| writer.heads())) {
+            Ok(Ok(h)) => heads_tag(&h),
+            Ok(Err(e)) => format!("E{e:?}"),
+            Err(_) => "Epanic".to_string(),
         };
         out.push_str(&format!("open=ok ho={ho} fc={fc} heads={heads}"));
         match w.kind {
@@ -895,6 +898,26 @@ fn main() {
                     }
                     Err(e) => writeln!(out, "R specerr:{}", e.replace(' ', "_")).unwrap(),
                 }
+            }
+            Some("RAW") => {
+                // RAW <size> <hex slot A> <hex slot B>: an image given by its size and the bytes at the two root slots
+                let size: u64 = it.next().unwrap().parse().unwrap();
+                let unhex = |s: &str| -> Vec<u8> {
+                    if s == "-" { return Vec::new(); }
+                    (0..s.len() / 2).map(|i| u8::from_str_radix(&s[2 * i..2 * i + 2], 16).unwrap()).collect()
+                };
+                let a = unhex(it.next().unwrap_or("-"));
+                let b = unhex(it.next().unwrap_or("-"));
+                let mut img = Image::default();
+                let clip = |off: u64, d: &[u8]| -> Vec<u8> {
+                    if off >= size { Vec::new() } else { d[..d.len().min((size - off) as usize)].to_vec() }
+                };
+                img.write(4096, &clip(4096, &a));
+                img.write(8192, &clip(8192, &b));
+                img.size = size;
+                let w = Workload { kind: Kind::Api, graph: api_graph(), trace: Vec::new(), recs: Vec::new(), cache: None };
+                let o = reopen(&tmp, &w, &img, false);
+                writeln!(out, "{} size={}", o.line, img.size).unwrap();
             }
             Some("DROP") => {
                 wls.remove(it.next().unwrap_or(""));
